@@ -31,9 +31,41 @@ def make_configs(rng, compiled_every):
     return configs
 
 
+def agg_bounds(rng):
+    """directed family for the passes that move work across scans (HoistAggregate / HoistConditions / MakeIndex on aggregates):
+    an aggregate nested under two or three scans whose body is bounded -- from below, from above or on both sides, weakly or
+    strictly -- by variables that different enclosing scans bind, next to an equality on the outermost one"""
+    import gen as G
+    p = G.Prog()
+    p.features = {"agg", "cmp", "agg_bounds"}
+    mk = lambda name, types, kind: p.rels.append(G.Rel(len(p.rels), name, types, kind)) or p.rels[-1]
+    mk("a", ["number"], "edb"); mk("d", ["number"], "edb"); mk("g", ["number"], "edb"); mk("b", ["number", "number"], "edb")
+    r = mk("r", ["number", "number", "number"], "idb")
+    r.layer, r.output = 1, True
+    small = lambda k: list({(rng.range(-2, 6),) for _ in range(k)})
+    p.facts["a"], p.facts["d"], p.facts["g"] = small(rng.range(2, 5)), small(rng.range(2, 5)), small(rng.range(1, 3))
+    p.facts["b"] = list({(rng.range(-2, 6), rng.range(-3, 8)) for _ in range(rng.range(4, 14))})
+    V = lambda nm: ("var", nm, "number")
+    x, y, w, z, c = V("x"), V("y"), V("w"), V("z"), V("c")
+    outer = [("pos", "a", [x]), ("pos", "d", [y])]
+    if rng.chance(1, 2):
+        outer.append(("pos", "g", [w]))
+    if rng.chance(1, 3):
+        outer[0], outer[1] = outer[1], outer[0]
+    body = [("pos", "b", [x if rng.chance(3, 4) else ("anon", "number"), z])]
+    bounds = [v for v in (y, w) if any(v in l[2] for l in outer)]
+    for v in bounds if rng.chance(1, 2) else bounds[:1]:
+        body.append(("cmp", rng.choice(["le", "le", "le", "ge", "ge", "lt", "gt", "ne"]), z, v))      # weak bounds become index bounds
+    kind = rng.choice(["count", "count", "sum", "min", "max"])
+    agg = ("agg", "c", kind, "number", None if kind == "count" else z, body)
+    p.clauses.append(("r", [x, y, c], outer + [agg]))
+    return p
+
+
 def main(pid, tier, seed, replay):
     import common as C
     return P.standard_check(pid, LEVEL, tier, seed, make_configs(C.SplitMix64(seed), 16 if tier == "quick" else 5), 48, 400, features, proof_pid="C06", rule=
         "generated programs x {each RAM transformer skipped singly, 3 random subsets} in the interpreter at -j4, one compiled run per few programs; "
-        "non-trivial = distinct program with non-empty output",
+        "plus a directed family of aggregates bounded by variables of different enclosing scans; non-trivial = distinct program with non-empty output",
+        extra_programs=lambda r, t: [agg_bounds(r.fork("ab%d" % i)) for i in range(40 if t == "quick" else 400)],
         extra_tb=["hook H2 in ram/transform/Transformer.cpp (guarded) implements the skipping"])
